@@ -331,5 +331,10 @@ pub fn lib() -> Library {
         impl Val<Tr> {
             fn payload(t: Val<Tr>) -> u64 { t.0.payload }
         }
+
+        impl Val<K> {
+            /// a host-registered `to_string` that is observable (f-string parts of this type)
+            fn to_string(k: Val<K>) -> RotoString { log(Ev::K(k.0.0)); RotoString::from(format!("K{}", k.0.0)) }
+        }
     }
 }
